@@ -212,6 +212,34 @@ func runUnit(w *World, pk *Pkg, c *Contract) (res *UnitResult) {
 			}
 		}
 	}
+	if dt := c.Opts["dyntype"]; dt != "" {
+		// `opt dyntype PARAM TYPE`: the interface parameter holds a value of exactly this dynamic type
+		f := strings.Fields(dt)
+		if len(f) != 2 {
+			panic(unsupportedErr{"opt dyntype PARAM TYPE"})
+		}
+		var pobj types.Object
+		for _, fl := range decl.Type.Params.List {
+			for _, id := range fl.Names {
+				if id.Name == f[0] {
+					pobj = pk.Info.Defs[id]
+				}
+			}
+		}
+		t := e.lookupTypeExpr(pk, f[1])
+		if pobj == nil || t == nil {
+			panic(unsupportedErr{"opt dyntype: unknown parameter or type " + dt})
+		}
+		pv := e.havocValue("dyn_"+f[0], t)
+		e.refBound(st, pv)
+		bv := Value{e.box(pv), pobj.Type()}
+		e.inputs[pobj] = bv
+		if e.boxed[pobj] {
+			e.declVar(st, pobj, bv)
+		} else {
+			st.vars[pobj] = bv
+		}
+	}
 	e.entry = st.clone()
 	// requires / assumes
 	for _, rq := range c.Requires {
@@ -444,4 +472,31 @@ func (r *UnitResult) summary() string {
 		fmt.Fprintf(&b, "\n  ERROR: %s", r.Err)
 	}
 	return b.String()
+}
+
+// lookupTypeExpr resolves a type written as in the unit's package: T, *T, pkg.T or *pkg.T.
+func (e *Engine) lookupTypeExpr(pk *Pkg, txt string) types.Type {
+	ptr := strings.HasPrefix(txt, "*")
+	txt = strings.TrimPrefix(txt, "*")
+	scope := pk.Types.Scope()
+	if q, name, ok := strings.Cut(txt, "."); ok {
+		scope = nil
+		for _, imp := range pk.Types.Imports() {
+			if imp.Name() == q {
+				scope = imp.Scope()
+			}
+		}
+		txt = name
+	}
+	if scope == nil {
+		return nil
+	}
+	obj := scope.Lookup(txt)
+	if obj == nil {
+		return nil
+	}
+	if ptr {
+		return types.NewPointer(obj.Type())
+	}
+	return obj.Type()
 }
